@@ -525,8 +525,10 @@ fn pair_histories(ctx: &Ctx, st: &mut Stats) -> Vec<Violation> {
     let sizes = [(4usize, 480usize), (1280, 2)];
     let out = par_sweep(ctx, st, n * sizes.len() as u64, |lo, hi, st| {
         for j in lo..hi {
-            let a = cfgs[(j % n) as usize];
-            let (w, h) = sizes[(j / n) as usize];
+            // (the two sizes alternate between neighbouring jobs, so that threads work on frames of different size
+            // classes at the same time)
+            let a = cfgs[(j / sizes.len() as u64) as usize];
+            let (w, h) = sizes[(j % sizes.len() as u64) as usize];
             for b in &cfgs {
                 let _ = new_yuv8(w, h, (0, 0), a);
                 let want = resolve_yuv(b, w, h);
@@ -534,7 +536,7 @@ fn pair_histories(ctx: &Ctx, st: &mut Stats) -> Vec<Violation> {
                 if got.as_ref().ok() != Some(&want) {
                     return Some(Violation {
                         signature: "C15:pair-history".into(),
-                        message: format!("Yuv::new on a {w}x{h} frame with config {} right after Yuv::new with config {} on the same thread gives {:?}; the documented heuristic gives {} (the resolution must be a pure function of config and dimensions)", cfg_json(b), cfg_json(&a), got.map(|c| cfg_json(&c)), cfg_json(&want)),
+                        message: format!("Yuv::new on a {w}x{h} frame with config {} right after Yuv::new with config {} on the same thread gives {:?}; the documented heuristic gives {} (the resolution must be a pure function of config and dimensions)", cfg_json(b), cfg_json(&a), got.map(|c| cfg_json(&c).to_string()), cfg_json(&want)),
                         case: json!({"prop":"C15","part":"pair","w":w,"h":h,"first":cfg_json(&a),"cfg":cfg_json(b)}),
                     });
                 }
@@ -552,14 +554,69 @@ fn pair_histories(ctx: &Ctx, st: &mut Stats) -> Vec<Violation> {
     out
 }
 
+/// Two-step histories across sizes: the same config on two frames whose width or height differ by 65536 (and a few
+/// other size pairs from different heuristic classes), in both orders. Keys that pack the dimensions into too few
+/// bits alias exactly there.
+fn size_pair_histories(ctx: &Ctx, st: &mut Stats) -> Vec<Violation> {
+    let mut cfgs: Vec<YuvConfig> = Vec::new();
+    for m in ALL_MC {
+        for p in ALL_CP {
+            for t in ALL_TC {
+                if m == MC::Unspecified || p == CP::Unspecified || t == TC::Unspecified {
+                    cfgs.push(cfg(m, t, p, 8, false, (0, 0)));
+                }
+            }
+        }
+    }
+    let base: [((usize, usize), (usize, usize)); 9] = [
+        ((1, 480), (1, 480 + 65536)),
+        ((64, 2), (64 + 65536, 2)),
+        ((4, 576), (4, 576 + 65536)),
+        ((1280, 2), (1280 + 65536, 2)),
+        ((2, 2), (2 + 65536, 2)),
+        ((2, 2), (2, 2 + 65536)),
+        ((2, 488), (2, 488 + 65536)),
+        ((1279, 1), (1280, 1)),
+        ((4, 576), (4, 480)),
+    ];
+    let mut pairs = Vec::new();
+    for (a, b) in base {
+        pairs.push((a, b));
+        pairs.push((b, a));
+    }
+    let n = cfgs.len() as u64;
+    par_sweep(ctx, st, n * pairs.len() as u64, |lo, hi, st| {
+        for j in lo..hi {
+            let c = cfgs[(j / pairs.len() as u64) as usize];
+            let ((w1, h1), (w2, h2)) = pairs[(j % pairs.len() as u64) as usize];
+            let _ = new_yuv8(w1, h1, (0, 0), c);
+            let want = resolve_yuv(&c, w2, h2);
+            let got = new_yuv8(w2, h2, (0, 0), c);
+            if got.as_ref().ok() != Some(&want) {
+                return Some(Violation {
+                    signature: "C15:size-pair-history".into(),
+                    message: format!("Yuv::new on a {w2}x{h2} frame right after Yuv::new on a {w1}x{h1} frame with the same config {} on the same thread gives {:?}; the documented heuristic gives {}", cfg_json(&c), got.map(|c| cfg_json(&c).to_string()), cfg_json(&want)),
+                    case: json!({"prop":"C15","part":"size-pair","w":w2,"h":h2,"w1":w1,"h1":h1,"first":cfg_json(&c),"cfg":cfg_json(&c)}),
+                });
+            }
+            st.comparisons += 1;
+            st.evaluations += 1;
+            st.nontrivial_by_construction += 1;
+            st.class("size_pair_histories", 1);
+        }
+        None
+    })
+}
+
 fn replay_part(v: &Value) -> Result<(), String> {
     let g = |k: &str| v.get(k).and_then(|x| x.as_u64()).map(|x| x as usize).ok_or_else(|| k.to_string());
     let (w, h) = (g("w")?, g("h")?);
     let c = cfg_from_json(v.get("cfg").ok_or("cfg")?).ok_or("cfg")?;
     if let Some(a) = v.get("first").and_then(cfg_from_json) {
+        let (w1, h1) = (v.get("w1").and_then(|x| x.as_u64()).map(|x| x as usize).unwrap_or(w), v.get("h1").and_then(|x| x.as_u64()).map(|x| x as usize).unwrap_or(h));
         // a fresh thread: process-wide state aside, the two calls follow each other directly
         return std::thread::spawn(move || {
-            let _ = new_yuv8(w, h, (0, 0), a);
+            let _ = new_yuv8(w1, h1, (0, 0), a);
             let want = resolve_yuv(&c, w, h);
             match new_yuv8(w, h, (0, 0), c) {
                 Ok(got) if got == want => Ok(()),
@@ -614,6 +671,9 @@ pub fn run(ctx: &Ctx, st: &mut Stats) -> Vec<Violation> {
     if out.is_empty() {
         out.extend(pair_histories(ctx, st));
     }
+    if out.is_empty() {
+        out.extend(size_pair_histories(ctx, st));
+    }
     out
 }
 
@@ -634,4 +694,4 @@ pub fn replay(v: &Value) -> Result<(), String> {
     check(&c, &mut Stats::new()).map_err(|v| v.message)
 }
 
-pub const RULE: &str = "enumeration: widths {1,2,16,1279,1280,1281} x heights {1,2,479..=489,575..=577,1279..=1281} x matrices x the 8 subsets of {matrix, primaries, transfer} set to Unspecified x {Yuv::new, Rgb::new, (LinearRgb|Xyb,t,p)->Rgb, (&Rgb|Rgb|LinearRgb|Xyb,cfg)->Yuv} (thorough: depths 8/10/16, random colour content, conversions of large frames). Oracle: (i) no accessor returns Unspecified; (ii) the resolved values equal the heuristic re-implemented from the statement, are the same on a second call and for other sample data; (iii) label = content: converting the same input with the stored (resolved) config given explicitly yields the same samples within max(1, 1.5% of the code range), and decoding the output with its own config and re-encoding reproduces them within the same budget. Frames handed to Yuv::new are also built with Plane::new paddings (storage geometry must not matter); every case is preceded by a call on the transposed shape (equal area) and by a sibling call with the same size and given metadata but another range/depth (no state may leak between calls); conversions are also preceded by the same conversion under other primaries and compared with the same conversion on a fresh thread. In addition: subsampled frames (4:2:2, 4:2:0, 4:4:0, 4:1:1, 4:1:0) whose luma and chroma sizes fall on different sides of the thresholds (16 sizes x 15 matrices x 7 subsets, Yuv::new and (&Rgb,cfg)->Yuv), and all 714^2 ordered pairs of configs with an Unspecified field as two-step Yuv::new histories on one thread at two sizes (the second call must resolve as the heuristic says). Conversions that fail are counted, not judged. A case = one (operation, size, config) triple; non-trivial = at least one field Unspecified; distinct by construction (hash of the case)";
+pub const RULE: &str = "enumeration: widths {1,2,16,1279,1280,1281} x heights {1,2,479..=489,575..=577,1279..=1281} x matrices x the 8 subsets of {matrix, primaries, transfer} set to Unspecified x {Yuv::new, Rgb::new, (LinearRgb|Xyb,t,p)->Rgb, (&Rgb|Rgb|LinearRgb|Xyb,cfg)->Yuv} (thorough: depths 8/10/16, random colour content, conversions of large frames). Oracle: (i) no accessor returns Unspecified; (ii) the resolved values equal the heuristic re-implemented from the statement, are the same on a second call and for other sample data; (iii) label = content: converting the same input with the stored (resolved) config given explicitly yields the same samples within max(1, 1.5% of the code range), and decoding the output with its own config and re-encoding reproduces them within the same budget. Frames handed to Yuv::new are also built with Plane::new paddings (storage geometry must not matter); every case is preceded by a call on the transposed shape (equal area) and by a sibling call with the same size and given metadata but another range/depth (no state may leak between calls); conversions are also preceded by the same conversion under other primaries and compared with the same conversion on a fresh thread. In addition: subsampled frames (4:2:2, 4:2:0, 4:4:0, 4:1:1, 4:1:0) whose luma and chroma sizes fall on different sides of the thresholds (16 sizes x 15 matrices x 7 subsets, Yuv::new and (&Rgb,cfg)->Yuv), and all 714^2 ordered pairs of configs with an Unspecified field as two-step Yuv::new histories on one thread at two sizes (the second call must resolve as the heuristic says), and the same config on two frames whose width or height differ by 65536 or that lie in different size classes, in both orders (18 size pairs x 714 configs). Conversions that fail are counted, not judged. A case = one (operation, size, config) triple; non-trivial = at least one field Unspecified; distinct by construction (hash of the case)";
